@@ -7,7 +7,7 @@ tag = sys.argv[1]
 jobs = int(sys.argv[2]) if len(sys.argv) > 2 else 3
 V = '/verif'
 crate = {'C01': 'duckscript', 'C02': 'duckscript', 'C03': 'duckscript', 'C08': 'duckscript', 'C13': 'duckscript', 'C14': 'duckscript', 'C20': 'duckscript_cli'}
-also = {'C09': 'C04', 'C01': 'C08', 'C08': 'C01', 'C13': 'C03', 'C06': 'C04', 'C10': 'C03', 'C11': 'C19', 'C19': 'C12', 'C05': 'C04'}
+also = {'C09': 'C04', 'C01': 'C08', 'C08': 'C01', 'C13': 'C03', 'C06': 'C04', 'C10': 'C03', 'C11': 'C19', 'C19': 'C12', 'C05': 'C04', 'C20': 'C03', 'C04': 'C09', 'C07': 'C04'}
 def slug(text):
     t = re.sub(r'[^a-z0-9 -]', ' ', text.lower())
     w = [x for x in t.split() if x not in ('seed', 'seeded', 'defect', 'notes', 'a', 'b', 'the', 'for', 'of', 'property', 'r9', 'r10', 'r11', '-', '--', '---') and not re.match(r'c\d\d$', x)]
